@@ -427,6 +427,11 @@ class Model:
         self.micro += 1
         if self.micro > self.max_micro:
             raise Budget()
+        # a transition has ONE domain per microstep: the one its exit set was computed from. (Read literally, the Rec.'s
+        # enterStates() recomputes it after exitStates() updated the history, which for a target that is the history of a
+        # state exited in this very microstep can yield a smaller domain and leave that state un-entered.)
+        static = 'large-select' in self.quirks or 'fast-select' in self.quirks
+        self._domain_cache = {id(t): (self._large_domain(t) if static else self.domain(t)) for t in ts if isinstance(t, Trans)}
         self.exit_states(ts)
         for t in ts:
             self.emit('t', t.vid)
@@ -525,7 +530,7 @@ class Model:
         for t in ts:
             for tid in t.targets:
                 self.add_descendants(self.ch.by_id[tid], to_enter, default_entry, default_hist)
-            anc = self.domain(t) if isinstance(t, Trans) else None
+            anc = (self._domain_cache[id(t)] if id(t) in getattr(self, '_domain_cache', {}) else self.domain(t)) if isinstance(t, Trans) else None
             for s in (self.effective_targets(t) if isinstance(t, Trans) else [self.ch.by_id[x] for x in t.targets]):
                 self.add_ancestors(s, anc, to_enter, default_entry, default_hist)
 
